@@ -461,6 +461,8 @@ def run(R):
     counter = [0]
     if R.shard == 1 % R.nshards:
         run_empty_oid_families(R)
+    if R.shard == 2 % R.nshards:
+        after_transport_failures(R)
     for name, mapping in named_families():
         if R.shard == 0:
             fdesc = {"kind": "named", "name": name, "map": [[list(k), list(v) if v else None] for k, v in mapping.items()]}
@@ -624,6 +626,68 @@ def error_and_cut_families(R):
                     run_err_op(R, 1, V2C("public"), inst, dict(cut=(nresp, keep)), "bulkwalk", "strict", bulk, roots)
 
 
+def after_transport_failures(R):
+    """The path after a failure: a walk whose k-th request is never answered (the sender's
+    Timeout) or is abandoned by its consumer; the NEXT walk-style operation on the same
+    client, against a well-behaved device, ends after the usual number of requests."""
+    chain_oids = [ROOT + (1, i) for i in range(1, 6)]
+    chain = {ROOT: chain_oids[0]}
+    for a, b in zip(chain_oids, chain_oids[1:]):
+        chain[a] = b
+    chain[chain_oids[-1]] = AFTER
+    for how in ("timeout", "abandon"):
+        for k in (1, 2, 4):
+            for first in ("walk", "bulkwalk", "table"):
+                agent = ScriptedAgent(table_f(chain))
+                seam = Seam(agent.handle)
+                client = Client("192.0.2.1", V2C("public"), sender=seam)
+                seen = {"n": 0}
+
+                def failing(data, k=k, seen=seen, agent=agent):
+                    seen["n"] += 1
+                    return None if seen["n"] == k else agent.handle(data)
+
+                case = {"f": {"kind": "after-failure", "how": how, "k": k, "first": first}, "op": first, "mode": "strict", "bulk": 2, "roots": [list(ROOT)]}
+                try:
+                    if how == "timeout":
+                        seam.responder = failing
+                        if first == "walk":
+                            drive_agen(client.walk(OID(ROOT)), limit=50)
+                        elif first == "bulkwalk":
+                            drive_agen(client.bulkwalk([OID(ROOT)], bulk_size=2), limit=50)
+                        else:
+                            drive(client.table(OID(ROOT)))
+                    else:
+                        agen = client.walk(OID(ROOT)) if first != "bulkwalk" else client.bulkwalk([OID(ROOT)], bulk_size=2)
+                        drive_agen(agen, limit=k)  # the consumer stops after k items
+                except (Exception, rig.BudgetExceeded):  # noqa: BLE001 - the failing call's own outcome is not judged here
+                    pass
+                seam.responder = agent.handle
+                for op, bulk in (("walk", None), ("bulkwalk", 2), ("table", None), ("walk", None)):
+                    seam.reset(budget=len(chain_oids) + 4)
+                    R.evaluations += 1
+                    try:
+                        if op == "walk":
+                            got = [oid_t(vb.oid) for vb in drive_agen(client.walk(OID(ROOT)), limit=50)]
+                        elif op == "bulkwalk":
+                            got = [oid_t(vb.oid) for vb in drive_agen(client.bulkwalk([OID(ROOT)], bulk_size=bulk), limit=50)]
+                        else:
+                            got = sorted(ROOT + (1,) + tuple(int(x) for x in row["0"].split(".")) for row in drive(client.table(OID(ROOT))))
+                        res = ("ok", got)
+                    except rig.BudgetExceeded:
+                        res = ("budget", None)
+                    except Exception as exc:  # noqa: BLE001
+                        res = ("exc", exc)
+                    if res[0] != "ok":
+                        R.violation(dict(case, op=op, bulk=bulk), "after a walk that %s, the next %s on the same client did not end normally: %r" % ("timed out at request %d" % k if how == "timeout" else "was abandoned after %d items" % k, op, res[1] if res[0] == "exc" else "request budget exhausted"), None)
+                        return
+                    if op != "table" and got != chain_oids:
+                        R.violation(dict(case, op=op, bulk=bulk), "after a failed walk the next %s yielded %r, the device holds %r" % (op, got, chain_oids), None)
+                        return
+                    R.mon["walks_after_a_failed_walk_ok"] += 1
+    R.case(("c03-after-failure",), True)
+
+
 def many_aborted_walks(R):
     """One long-lived client runs lenient walks against faulty devices hundreds of times
     (each fault a different one): walk number 300 still ends normally with what was
@@ -702,6 +766,9 @@ def replay(R, v):
     fd = c["f"]
     if fd["kind"] == "many-aborted":
         many_aborted_walks(R)
+        return
+    if fd["kind"] == "after-failure":
+        after_transport_failures(R)
         return
     if fd["kind"] == "err-agent":
         from puresnmp.credentials import V1
